@@ -17,12 +17,27 @@ CTRL_KINDS = ['random', 'bang', 'held', 'beyond', 'zero']
 KICK_KINDS = ['kick', 'spin', 'displace']
 
 
+# mode by run index (16-cycle): 9 momentum, 4 collision, 1 three-body, 2 rest
+MODE_CYCLE = ['momentum', 'collision', 'momentum', 'rest', 'momentum',
+              'collision', 'momentum', 'threebody', 'momentum', 'collision',
+              'momentum', 'rest', 'momentum', 'collision', 'momentum',
+              'momentum']
+
+
+def mode_of(run):
+  return MODE_CYCLE[run % len(MODE_CYCLE)]
+
+
 def plan(prop, tier):
   return 96 if tier == 'quick' else 1200
 
 
 def worker_class(prop, tier, run):
-  return {'x64': run % 4 != 3, 'dev4': False}
+  # the rest case runs in float64 only: in float32 the spring pipeline turns
+  # position round-off into 1e-3 .. 1e-1 rad/s within a few steps (11.2)
+  if mode_of(run) == 'rest':
+    return {'x64': True, 'dev4': False}
+  return {'x64': (run // 2) % 4 != 3, 'dev4': False}
 
 
 def chunks_per_worker(prop, tier):
@@ -82,13 +97,22 @@ def _lane(r, tier):
 def generate(prop, tier, seed, run):
   r = core.run_rng(seed, ENGINE, run)
   wc = worker_class(prop, tier, run)
-  u = r.random()
+  mode = mode_of(run)
   B = r.choice([4, 8]) if tier == 'quick' else r.choice([4, 8, 16])
-  if u < 0.55:
+  if mode == 'momentum':
     self_collide = r.random() < 0.3
     model = modelgen.gen_model(
-        r, roots='free', collide=(1, 1) if self_collide else (0, 0),
+        r, roots='free', collide=(0, 0),
         max_links=5 if tier == 'quick' else 6)
+    if self_collide and len(model['links']) >= 2:
+      # exactly two links may collide with each other: every contact is then
+      # "between two bodies" and no link can touch two others at once (that
+      # configuration is the known finding demonstrated by the threebody mode)
+      for li in r.sample(range(len(model['links'])), 2):
+        for ge in model['links'][li]['geoms']:
+          ge['contype'] = ge['conaffinity'] = 1
+    else:
+      self_collide = False
     if r.random() < 0.3:
       # several free roots => mechanically disconnected components
       for l in model['links'][1:]:
@@ -110,7 +134,7 @@ def generate(prop, tier, seed, run):
             'lanes': [_lane(r, tier) for _ in range(B)],
             'unstable': bool(unstable), 'self_collide': self_collide,
             'x64': wc['x64']}
-  if u < 0.8:
+  if mode == 'collision':
     ga = modelgen.gen_geom(r, (1, 1))
     gb = modelgen.gen_geom(r, (1, 1))
     for g in (ga, gb):
@@ -139,7 +163,7 @@ def generate(prop, tier, seed, run):
                        'v': r.uniform(1.5, 6.0), 'spin': r.choice([0.0, 2.0])}
                       for _ in range(B)],
             'x64': wc['x64']}
-  if u < 0.86:
+  if mode == 'threebody':
     # three free spheres in a row, the middle one touching both neighbours at
     # once: every contact is between two bodies, one link has two partners
     rad = [r.uniform(0.06, 0.15) for _ in range(3)]
@@ -378,7 +402,7 @@ def _run_momentum(g, ctx, sys, x64):
   bad = np.argwhere(relm > 1.0)
   if len(bad):
     t, b = int(bad[0][0]), int(bad[0][1])
-    if g['mode'] == 'threebody' or g.get('self_collide'):
+    if g['mode'] == 'threebody':
       if classify(t, b) >= 2:
         sig += '/multi_body_contact'
     ctx.violate('momentum.step', t, sig, {
